@@ -69,7 +69,7 @@ var words = []string{"", "a", "ab", "abc", "foo", "bar", "baz", "foobar", "web-1
 var keyWords = []string{"a", "b", "c", "foo", "bar", "x", "name", "tags", "meta", "n", "k1", "k2", "k3", "co:lon", "with space", "ünï", "0", "Name", "NAME", "Foo", "FOO", "Env", "ENV", "env", "9", "10", "1a", "2", "4a", "sl/ash", "ti~lde", "dot.ted", "", "a b", "-"}
 
 // DatumGens lists the constructors for Evaluate data.
-var DatumGens = []string{"doc", "docptr", "json", "jsonnum", "tmap:int", "tmap:slice", "tmap:map", "tmap:ptr", "tmap:any", "tmap:inner", "tmap:ikey", "tmap:nkey", "longlist", "odd", "odd", "bytesdoc", "bytesdoc", "names"}
+var DatumGens = []string{"doc", "docptr", "json", "jsonnum", "tmap:int", "tmap:slice", "tmap:map", "tmap:ptr", "tmap:any", "tmap:inner", "tmap:ikey", "tmap:nkey", "longlist", "odd", "odd", "bytesdoc", "bytesdoc", "names", "floats", "floats"}
 
 // CollGens lists the constructors for Filter.Execute containers.
 var CollGens = []string{"coll:slice", "coll:ptrslice", "coll:array", "coll:arrayptr", "coll:arrayany", "coll:arraymap", "coll:map", "coll:intmap", "coll:named", "coll:namedmap", "coll:jsonlist", "coll:anys", "coll:nilslice", "coll:empty", "coll:anymap", "coll:ptrmap", "coll:scalar", "coll:huge", "coll:names"}
@@ -93,6 +93,26 @@ func Build(d DatumSpec) interface{} {
 			"raw":  json.RawMessage(r.Pick([]string{`{"a":1}`, `{"b":2}`, `[1,2,3]`})),
 			"line": []byte(r.Pick(words) + " " + r.Pick(words)),
 			"n":    r.Range(0, 3),
+		}
+	case d.Gen == "floats":
+		// the same decimal numbers as float32 in one datum and float64 in the next:
+		// 0.1, 0.3, 1.1 are different numbers at the two widths
+		dec := []float64{0.1, 0.3, 1.1, 2.5, 0.7}
+		k := int(d.Seed/2) % len(dec)
+		wide := d.Seed%2 == 0 // (seed and seed^1 are the same record at the two widths)
+		f := func(x float64) interface{} {
+			if wide {
+				return x
+			}
+			return float32(x)
+		}
+		v = map[string]interface{}{
+			"ratio": f(dec[k]),
+			"load":  f(dec[(k+1)%len(dec)]),
+			"xs":    []interface{}{f(7), f(dec[k]), float64(dec[(k+2)%len(dec)]), float32(dec[(k+3)%len(dec)])},
+			"ws":    []float32{float32(dec[k]), 2},
+			"wd":    []float64{dec[k], 2},
+			"n":     k,
 		}
 	case d.Gen == "odd":
 		v = genOdd(r)
@@ -756,7 +776,7 @@ func genMixed(spec string) interface{} {
 			tm[k] = v.(*Inner)
 		}
 		return map[string]interface{}{"m": tm, "top": 1}
-	case "filter", "tfilter", "qfilter", "dfilter":
+	case "filter", "tfilter", "qfilter", "dfilter", "numin":
 		if fam == "tfilter" {
 			tm := map[string]*Inner{}
 			for k, v := range m {
@@ -791,6 +811,7 @@ var MixedFamilies = map[string]string{
 	"ikin":    `"web" in v`,
 	"keyre":   `k == "k1"`,
 	"eqchain": `v == "1" or v == "on"`,
+	"numin":   `"1.5" in w`,
 }
 
 // MixedElem returns the element of class c (T, F or E) for family fam.
@@ -905,6 +926,20 @@ func MixedElem(fam string, c byte, j int) interface{} {
 				return map[string]interface{}{}
 			}
 			return map[string]interface{}{"other": j}
+		}
+	case "numin":
+		// records whose lists hold numbers of different kinds: the literal parses
+		// as a float and is a syntax error (skipped) as an int or uint
+		switch c {
+		case 'T':
+			return map[string]interface{}{"w": []interface{}{2.5, 1.5, j}}
+		case 'F':
+			return map[string]interface{}{"w": []interface{}{2.5, float32(3)}}
+		default:
+			if j%2 == 0 {
+				return map[string]interface{}{"w": []interface{}{1, 2, uint(3)}}
+			}
+			return map[string]interface{}{"w": []interface{}{int64(1), 1.5}}
 		}
 	case "eqchain":
 		// several literals compared with one selector: the int equals the first
